@@ -79,6 +79,9 @@ def trace(local, defs, names, depth=0):
     return ('unknown', rhs)
 
 
+MIR_TEXT = {}
+
+
 def format_sites(text):
     """every Arguments::new site of one function"""
     defs = defs_of(text)
@@ -112,7 +115,7 @@ def format_sites(text):
         else:
             um = re.search(r'(_\d+) = (?:std|alloc)::fmt::format\(move %s\)' % re.escape(res_local), text)
             use = ('string', um.group(1)) if um else 'unknown'
-        sites.append({'template': template, 'args': args, 'defs': defs, 'names': names, 'use': use})
+        sites.append({'template': template, 'args': args, 'defs': defs, 'names': names, 'use': use, 'mir': MIR_TEXT.get('mir')})
     for m in re.finditer(r"Arguments::<'_>::from_str(?:_nonconst)?\((?:const |move )", text):
         pass
     return sites
@@ -277,8 +280,35 @@ def check_named_definitions(sites, assumptions):
     return seen
 
 
+def homomorphism_image(mir, fn_name):
+    """If fn_name(&str) -> String is a straight-line chain of char replacements (interpretable by mirsym),
+    return the language h(Sigma*) of its results, else None."""
+    try:
+        text = mirsym.function_text(mir, fn_name.split('::')[-1]) if '::' in fn_name else mirsym.function_text(mir, fn_name)
+    except mirsym.Unsupported:
+        return None
+    special = []
+    try:
+        if 'switchInt' in text or 'Arguments::' in text:
+            return None
+        images = {}
+        for c in range(1, 128):
+            out, _ = mirsym.escape_concrete(text, bytes([c]))
+            if out != bytes([c]):
+                images[chr(c)] = out.decode()
+        two, _ = mirsym.escape_concrete(text, b'ab')
+        if two != b'ab':
+            return None
+    except (mirsym.Unsupported, KeyError, IndexError):
+        return None
+    parts = [re_lit(v) for v in images.values()]
+    parts.append(char_not(sorted(images)) if images else z3.AllChar(RS))
+    return z3.Star(union(*parts))
+
+
 def arg_language(arg, site):
     ty = arg['type'].replace('&', '').strip()
+    ty = re.sub(r"^(?:std::borrow::)?Cow<'_, str>$", 'String', ty)
     if arg['fmt'] == 'debug':
         if ty in ('str', 'String', 'Ustr'):
             return DEBUG_STR, 'debug-string'
@@ -306,6 +336,20 @@ def arg_language(arg, site):
         if o[0] == 'call' and 'fmt::format' in o[1]:
             # an unnamed intermediate string: the only ones are "{pos}: {cmd}" handed to make_dot_string_constant
             return ANY, 'formatted-text'
+        callee = None
+        if o[0] == 'call':
+            callee = o[1]
+        elif o[0] == 'name':
+            d = site['defs'].get(o[2], '')
+            cm = re.match(r'([A-Za-z_][A-Za-z0-9_:]*)\(', d)
+            if cm:
+                callee = cm.group(1)
+        if callee is not None and site.get('mir'):
+            lang = homomorphism_image(site['mir'], callee.split('::<')[0])
+            if lang is not None:
+                return lang, 'sanitised-by:%s' % callee
+            # a helper whose body is not a plain replace chain (branches, loops): its result is any string
+            return ANY, 'result-of:%s' % callee
         raise mirsym.Unsupported('String argument of unknown origin %r' % (o,))
     raise mirsym.Unsupported('Display argument of type %s' % arg['type'])
 
@@ -632,6 +676,7 @@ def replay_battery(shell='bash'):
 def check_sites(mir, stats):
     """-> (rows, assumptions, bad sites)"""
     line_lang = dot_line_language()
+    MIR_TEXT['mir'] = mir
     rows = []
     assumptions = set()
     bad = []
@@ -665,6 +710,7 @@ def check_sites(mir, stats):
 def lines_in_site_languages(mir, files, stats):
     """translator validation: every line of real dumps belongs to the language of some emitted site"""
     langs = []
+    MIR_TEXT['mir'] = mir
     for fn in ('dfa::do_to_dot', 'regex::do_to_dot'):
         for st in format_sites(mirsym.function_text(mir, fn)):
             if st['use'] != 'emitted':
